@@ -35,16 +35,17 @@ type c03Limit struct {
 	mod  func(np *v1.NodePool)
 	cpu  int64 // cores, 0 = unlimited
 	mem  int64 // Gi, 0 = unlimited
+	ext  map[string]int64 // extended resources, absent = unlimited
 }
 
 var c03Limits = []c03Limit{
-	{"cpu=3", func(np *v1.NodePool) { np.Spec.Limits = v1.Limits{corev1.ResourceCPU: resource.MustParse("3")} }, 3, 0},
-	{"cpu=6", func(np *v1.NodePool) { np.Spec.Limits = v1.Limits{corev1.ResourceCPU: resource.MustParse("6")} }, 6, 0},
-	{"cpu=10", func(np *v1.NodePool) { np.Spec.Limits = v1.Limits{corev1.ResourceCPU: resource.MustParse("10")} }, 10, 0},
-	{"memory=12Gi", func(np *v1.NodePool) { np.Spec.Limits = v1.Limits{corev1.ResourceMemory: resource.MustParse("12Gi")} }, 0, 12},
+	{"cpu=3", func(np *v1.NodePool) { np.Spec.Limits = v1.Limits{corev1.ResourceCPU: resource.MustParse("3")} }, 3, 0, nil},
+	{"cpu=6", func(np *v1.NodePool) { np.Spec.Limits = v1.Limits{corev1.ResourceCPU: resource.MustParse("6")} }, 6, 0, nil},
+	{"cpu=10", func(np *v1.NodePool) { np.Spec.Limits = v1.Limits{corev1.ResourceCPU: resource.MustParse("10")} }, 10, 0, nil},
+	{"memory=12Gi", func(np *v1.NodePool) { np.Spec.Limits = v1.Limits{corev1.ResourceMemory: resource.MustParse("12Gi")} }, 0, 12, nil},
 	{"cpu=8,memory=8Gi", func(np *v1.NodePool) {
 		np.Spec.Limits = v1.Limits{corev1.ResourceCPU: resource.MustParse("8"), corev1.ResourceMemory: resource.MustParse("8Gi")}
-	}, 8, 8},
+	}, 8, 8, nil},
 }
 
 // KM: a compute-heavy and a memory-heavy shape — the type with the most cpu is NOT the type with the most memory, so
@@ -86,30 +87,39 @@ func c03Dynamic(r *ev.Rec) {
 	defer func() { podShapes, catalogs = savedShapes, savedCats }()
 	mh, sm := len(podShapes)-1, shapeIdx("small")
 	kmLimits := []c03Limit{
-		{"memory=48Gi", func(np *v1.NodePool) { np.Spec.Limits = v1.Limits{corev1.ResourceMemory: resource.MustParse("48Gi")} }, 0, 48},
-		{"memory=40Gi", func(np *v1.NodePool) { np.Spec.Limits = v1.Limits{corev1.ResourceMemory: resource.MustParse("40Gi")} }, 0, 40},
-		{"cpu=12", func(np *v1.NodePool) { np.Spec.Limits = v1.Limits{corev1.ResourceCPU: resource.MustParse("12")} }, 12, 0},
+		{"memory=48Gi", func(np *v1.NodePool) { np.Spec.Limits = v1.Limits{corev1.ResourceMemory: resource.MustParse("48Gi")} }, 0, 48, nil},
+		{"memory=40Gi", func(np *v1.NodePool) { np.Spec.Limits = v1.Limits{corev1.ResourceMemory: resource.MustParse("40Gi")} }, 0, 40, nil},
+		{"cpu=12", func(np *v1.NodePool) { np.Spec.Limits = v1.Limits{corev1.ResourceCPU: resource.MustParse("12")} }, 12, 0, nil},
 	}
 	type dynCase struct {
 		batch []int
 		cat   string
 		lim   c03Limit
 		ex    int
+		// stage the launched nodes are brought to before the next round ("" = initialized), and the shape of the late pod
+		stage string
+		late  string
 	}
 	var cases []dynCase
 	for _, b := range bl {
 		for _, c := range cats {
 			for _, lm := range c03Limits {
 				for _, e := range existing {
-					cases = append(cases, dynCase{b, c, lm, e})
+					cases = append(cases, dynCase{batch: b, cat: c, lim: lm, ex: e})
 				}
 			}
 		}
 	}
 	for _, b := range [][]int{{mh}, {mh, mh}, {mh, mh, mh}, {mh, mh, sm}, {mh, sm, sm}} {
 		for _, lm := range kmLimits {
-			cases = append(cases, dynCase{b, "KM", lm, 0})
+			cases = append(cases, dynCase{batch: b, cat: "KM", lim: lm})
 		}
+	}
+	// a limit on an EXTENDED resource, with the launched node stopping at a stage in which the kubelet reports that
+	// resource as absent or as an explicit 0 (device plugin not up yet) when the next gpu pod arrives
+	gpuLim := c03Limit{name: "example.com/gpu=1", mod: func(np *v1.NodePool) { np.Spec.Limits = v1.Limits{"example.com/gpu": resource.MustParse("1")} }, ext: map[string]int64{"example.com/gpu": 1}}
+	for _, st := range []string{"", "registered", "registered-explicit-zero-ext", "node-unregistered-explicit-zero-ext", "node-unregistered-no-hostname-zero-ext"} {
+		cases = append(cases, dynCase{batch: []int{shapeIdx("gpu")}, cat: "K4", lim: gpuLim, stage: st, late: "gpu"})
 	}
 	enum.Run(r, int64(len(cases)), func(idx int64, l *ev.Local) {
 		dc := cases[idx]
@@ -128,6 +138,7 @@ func c03Dynamic(r *ev.Rec) {
 			baseCPU, baseMem := int64(-1), int64(-1)
 			check := func(when string) {
 				var cpu, mem int64
+				ext := map[string]int64{}
 				for _, inst := range w.CP.Live() {
 					nc := w.GetNodeClaim(inst.NodeClaim.Name)
 					if nc == nil || nc.DeletionTimestamp != nil || nc.Labels[v1.NodePoolLabelKey] != "default" {
@@ -136,6 +147,14 @@ func c03Dynamic(r *ev.Rec) {
 					t := pickType(env.Catalog, nc.Labels[corev1.LabelInstanceTypeStable])
 					cpu += int64(t.CPU)
 					mem += int64(t.MemGi)
+					for k, v := range t.Ext {
+						ext[k] += int64(v)
+					}
+				}
+				for k, lv := range lim.ext {
+					if baseCPU >= 0 && ext[k] > lv {
+						l.Violation("NodePool resource limit exceeded: "+lim.name, fmt.Sprintf("%s: the pool's non-deleting nodes add up to %s=%d, limit %d  [%s history=%v]", when, k, ext[k], lv, c.String(), hist), map[string]any{"case": c, "history": hist, "choices": run.Choices()})
+					}
 				}
 				if baseCPU < 0 {
 					baseCPU, baseMem = cpu, mem // capacity that existed before Karpenter acted is not Karpenter's doing
@@ -185,7 +204,11 @@ func c03Dynamic(r *ev.Rec) {
 						continue
 					}
 					pick := run.Choose("launch", k, func(int) int { return 0 })
-					launch, ok := advance(w, ctrl, nc.Name, "initialized", pick)
+					stage := dc.stage
+					if stage == "" {
+						stage = "initialized"
+					}
+					launch, ok := advance(w, ctrl, nc.Name, stage, pick)
 					hist = append(hist, fmt.Sprintf("launch %s as %s ok=%v", nc.Name, launch, ok))
 					launched++
 					w.SyncCluster()
@@ -195,9 +218,15 @@ func c03Dynamic(r *ev.Rec) {
 				// pods that were placed bind to their nodes; optionally one more pod arrives
 				if run.Choose("arrival", 2, func(int) int { return 0 }) == 1 {
 					p := world.Pod(fmt.Sprintf("late%d", round), 2500)
+					what := "a 2500m pod arrives"
+					if dc.late != "" {
+						sh := podShapes[shapeIdx(dc.late)]
+						p = world.Pod(fmt.Sprintf("late%d", round), sh.cpu, sh.mods...)
+						what = "a " + sh.name + " pod arrives"
+					}
 					w.Add(p)
 					env.Pending = append(env.Pending, p)
-					hist = append(hist, "a 2500m pod arrives")
+					hist = append(hist, what)
 				}
 				w.SyncCluster()
 			}
@@ -669,7 +698,7 @@ func firstLines(s string, n int) string {
 
 func init() {
 	register("C03", "model_checking", func(r *ev.Rec) {
-		r.Rule = "A (dynamic pools): pod batches <=2 x catalogs x 5 limit sets x {no node, one node}, plus a catalog whose largest-cpu type is not its largest-memory type x batches <=3 of 6Gi pods x memory / cpu limits: 2/3 rounds of the real Provisioner.Reconcile (batcher, Synced gate), every NodeClaim launched through the real lifecycle controller as EVERY permitted (type, offering) (up to 3/4 per claim, one launch of every permitted instance type first), optional extra pass before launch and optional late pod; after every launch the capacity of the pool's non-deleting nodes (from the provider's instance table) must be within the limits. " +
+		r.Rule = "A (dynamic pools): pod batches <=2 x catalogs x 5 limit sets x {no node, one node}, plus a catalog whose largest-cpu type is not its largest-memory type x batches <=3 of 6Gi pods x memory / cpu limits, plus a limit on an extended resource with the launched node stopping at every not-yet-initialized stage (resource absent or an explicit 0) when the next gpu pod arrives: 2/3 rounds of the real Provisioner.Reconcile (batcher, Synced gate), every NodeClaim launched through the real lifecycle controller as EVERY permitted (type, offering) (up to 3/4 per claim, one launch of every permitted instance type first), optional extra pass before launch and optional late pod; after every launch the capacity of the pool's non-deleting nodes (from the provider's instance table) must be within the limits. " +
 			"B (seam): the real NodePoolState under EVERY interleaving of the operation programs of concurrent reconciles (provisioning = Reserve; per slot Create ok|fail then Release; informer = Deleting/Cleanup; queue = PendingDisruption + replacement provisioning): no panic, counted claims never exceed the limit. " +
 			"C (protocol): the real static provisioning (twice) and deprovisioning controllers, the real NodeClaim informer and an environment thread (user deletes a NodeClaim / replicas +-1) and, when a NodeClaim is drifted, the real disruption controller restricted to StaticDrift with the real orchestration queue, as cooperative threads with scheduling points at every API call, all schedules with <=1/2 preemptions x a failing NodeClaim create, replicas {1,2} x node limit {unset, replicas, replicas+1} x existing {r-1,r,r+1}; invariant at every scheduling point: NodeClaims <= node limit; no controller panic; after a fault-free settle the live count equals the replica count. states = scheduling points / seam states visited; non-trivial = distinct executions"
 		r.Assumptions = []string{"fan-out of CreateNodeClaims is 1 in the protocol part (one NodeClaim per reconcile) so that the child goroutine is attributed to its thread", "settling plays finalization of deleting NodeClaims and kubelet bring-up of new ones"}
